@@ -2,6 +2,7 @@ package main
 
 import (
 	"fmt"
+	"os"
 	"go/types"
 	"io"
 	"sort"
@@ -39,6 +40,7 @@ type Run struct {
 	initNextObj int
 	wallLimit   time.Duration
 	thorough    bool
+	deadline    time.Time
 
 	// concrete mode
 	concrete  bool
@@ -96,6 +98,16 @@ func (r *Run) note(format string, a ...interface{}) {
 }
 
 func (r *Run) push(p *Path) { r.work = append(r.work, p) }
+
+// tick is called every ~1M steps: progress output and the wall-clock limit.
+func (r *Run) tick(p *Path) {
+	if os.Getenv("VCHECK_PROGRESS") != "" {
+		fmt.Fprintf(os.Stderr, "[%s] steps=%dM paths done=%d pending=%d queries=%d at %s\n", r.harness, r.steps>>20, len(r.paths), len(r.work), r.stats.Queries, p.where())
+	}
+	if r.wallLimit > 0 && !r.deadline.IsZero() && time.Now().After(r.deadline) {
+		p.end("steplimit", fmt.Sprintf("wall-clock limit %s exceeded inside a path at %s", r.wallLimit, p.where()))
+	}
+}
 
 func (r *Run) globalObj(g *ssa.Global) int {
 	if id, ok := r.globals[g]; ok {
@@ -192,6 +204,7 @@ func (r *Run) Execute(fn *ssa.Function) {
 	p.pushFrame(fn, nil, nil, -1, fkNormal)
 	r.push(p)
 	deadline := time.Now().Add(r.wallLimit)
+	r.deadline = deadline
 	for len(r.work) > 0 {
 		n := len(r.work)
 		q := r.work[n-1]
